@@ -7,6 +7,7 @@ import (
 	"bufio"
 	"bytes"
 	"crypto/sha256"
+	"encoding/base64"
 	"encoding/hex"
 	"encoding/json"
 	"fmt"
@@ -282,3 +283,15 @@ func guard(f func() string) (out string) {
 	}()
 	return f()
 }
+
+// detRand adapts the deterministic PRNG to io.Reader (key generation from VERIF_SEED).
+type detRand struct{ r *Rng }
+
+func (d detRand) Read(p []byte) (int, error) {
+	for i := range p {
+		p[i] = d.r.Byte()
+	}
+	return len(p), nil
+}
+
+func toB64(b []byte) string { return base64.StdEncoding.EncodeToString(b) }
